@@ -65,4 +65,54 @@ theorem optimizeGenMP_eq_model (run : Nat) (pst : Persist) (r : RunSpec) :
   unfold optimizeGenMP C10.optimizeRef loopOrderGenMP
   rw [h, hp, he]
 
+/-! ### SinglePassGoalProgrammingMixin -/
+
+/-- what the priority loop iterates over: `sorted({int(g.priority) for g in goals + path_goals if not g.is_empty})` -/
+def loopOrderGenSP (gs : List Goal) : List Int := C10.priorities gs
+
+/-- tracked assignments before the loop -/
+def prologueGenSP (st : PSt) : PSt :=
+  let st1 : PSt := { st with success := false }
+  let st2 : PSt := { st1 with current := false }
+  st2
+
+/-- one pass through the body of the priority loop -/
+def passGenSP (run : Nat) (skip : Int → Bool) (oracle : Nat → Bool) (st : PSt) (p : Int) : PSt × Flow :=
+  let st1 : PSt := { st with events := st.events ++ [.started p], skipFlag := skip p }
+  let st2 : PSt := { st1 with events := st1.events ++ [.solve p (oracle st1.nsolves)], success := oracle st1.nsolves, lastRaw := some (run, p, oracle st1.nsolves), nsolves := st1.nsolves + 1 }
+  if st2.success = false then
+    (st2, .stop)
+  else
+    let st3 : PSt := { st2 with current := false }
+    let st4 : PSt := { st3 with results := C10.extractNow st3 }
+    let st5 : PSt := { st4 with current := true }
+    let st6 : PSt := { st5 with events := st5.events ++ [.completed p], views := st5.views ++ [(p, C10.extractNow st5)] }
+    (st6, .next)
+
+/-- after the loop -/
+def epilogueGenSP (st : PSt) : PSt := { st with events := st.events ++ [.post] }
+
+def optimizeGenSP (run : Nat) (pst : Persist) (r : RunSpec) : PSt :=
+  epilogueGenSP (forLoop (passGenSP run r.skip r.oracle) (prologueGenSP (enter pst)) (loopOrderGenSP r.gs))
+
+theorem prologueGenSP_eq_model (st : PSt) : prologueGenSP st = C10.prologueRef .singlePass st := rfl
+
+theorem passGenSP_eq_model (run : Nat) (skip : Int → Bool) (oracle : Nat → Bool) (st : PSt) (p : Int) :
+    passGenSP run skip oracle st p = C10.passRef .singlePass run skip oracle st p := by
+  first
+    | rfl
+    | (unfold passGenSP C10.passRef C10.solveAndStore
+       cases hs : skip p <;> cases ho : oracle st.nsolves <;> simp [hs, ho, C10.extractNow])
+
+theorem epilogueGenSP_eq_model (st : PSt) : epilogueGenSP st = C10.epilogueRef st := rfl
+
+theorem optimizeGenSP_eq_model (run : Nat) (pst : Persist) (r : RunSpec) :
+    optimizeGenSP run pst r = C10.optimizeRef .singlePass run pst r := by
+  have h : passGenSP run r.skip r.oracle = C10.passRef .singlePass run r.skip r.oracle := by
+    funext st p; exact passGenSP_eq_model run r.skip r.oracle st p
+  have hp : ∀ st, prologueGenSP st = C10.prologueRef .singlePass st := prologueGenSP_eq_model
+  have he : ∀ st, epilogueGenSP st = C10.epilogueRef st := epilogueGenSP_eq_model
+  unfold optimizeGenSP C10.optimizeRef loopOrderGenSP
+  rw [h, hp, he]
+
 end RtcVerif.Gen
